@@ -12,6 +12,7 @@ Step = {t: in, i, a, b, usekw, beh, ret, name, hfail?, exc?}          beh: ret|r
      | {t: out, i, a, kw: [[k, desc]], beh, ret, hfail?, exc?}              discard_raise|force
      | {t: discard} | {t: force} | {t: record_data, k, v} | {t: sleep, ms} | {t: threads, workers: [[Step]]}
      | {t: mutate_last}   (in-place mutation of the value the previous call returned, how: int)
+     | {t: nested_op, inner: ret|raise}   (calls another decorated operation of the same recorder, copes with refusal)
 """
 import copy
 import itertools
@@ -337,6 +338,16 @@ def build_class(prog, rec, W, decorated=True):
                 seen.append(('threads', s['sid'], results))
                 if errors:
                     raise errors[0]
+            elif t == 'nested_op':
+                # the operation calls another decorated operation of the same recorder (which refuses to start a
+                # second recording while one is running) and copes with the refusal
+                W.tl.inner_raises = s.get('inner') == 'raise'
+                try:
+                    W.inner_cls().execute()
+                except AssertionError:
+                    W.journal.append(('inner-op-refused', W.world))
+                except V.Err:
+                    pass
             elif t == 'raise_now':
                 raise V.ERRS[s.get('exc', 'Err')]('step %s' % s['sid'])
             elif t == 'interrupt_now':
@@ -423,6 +434,17 @@ def build_class(prog, rec, W, decorated=True):
                 kw['sampling_rate'] = '0.25'
             R.recording_params(RecordingParameters(**kw))(cls)
     W.cls = cls
+
+    def inner_run(self):
+        W.journal.append(('inner-op', W.world))
+        if getattr(W.tl, 'inner_raises', False):
+            raise V.Err('inner operation fails')
+        return 'inner result'
+
+    inner = type(name + 'Inner', (object,), {'execute': R.operation()(inner_run) if decorated else inner_run})
+    inner.__module__ = CLASSES_MODULE
+    setattr(_mod, name + 'Inner', inner)
+    W.inner_cls = inner
     if not hasattr(W, 'thread_factory'):
         W.thread_factory = lambda target, args: threading.Thread(target=target, args=args)
 
@@ -448,10 +470,11 @@ def build_class(prog, rec, W, decorated=True):
 
 
 def forget_class(cls):
-    try:
-        delattr(_mod, cls.__name__)
-    except AttributeError:
-        pass
+    for n in (cls.__name__, cls.__name__ + 'Inner'):
+        try:
+            delattr(_mod, n)
+        except AttributeError:
+            pass
 
 
 def execute(cls, prog):
